@@ -26,7 +26,12 @@ TMO = int(os.environ.get("VERIF_SOLVER_TIMEOUT_MS", "30000"))
 EXPECTED_ERR = {
     "Assert": {"FailedAssertion"}, "Inv": {"DivideByZero"}, "Not": {"NotBinaryValue"}, "And": {"NotBinaryValue"},
     "Or": {"NotBinaryValue"}, "CSwap": {"NotBinaryValue"}, "CSwapW": {"NotBinaryValue"},
-    "U32div": {"DivideByZero"}, "U32assert2": {"NotU32Value"},
+    "U32div": {"DivideByZero"}, "U32assert2": {"NotU32Value"}, "U32and": {"NotU32Value"}, "U32xor": {"NotU32Value"},
+}
+# failing cases checked by the bitwise chiplet's processor side (u32and/u32xor fail on non-u32 operands)
+EXTRA_IMPLIED = {
+    "U32and": lambda S: [("s0 < 2^32", S.lt(S.s[0], 2**32)), ("s1 < 2^32", S.lt(S.s[1], 2**32))],
+    "U32xor": lambda S: [("s0 < 2^32", S.lt(S.s[0], 2**32)), ("s1 < 2^32", S.lt(S.s[1], 2**32))],
 }
 # operations whose error condition is not part of this table (range of the fmp register)
 ERR_NOT_CHECKED = {"FmpUpdate": {"InvalidFmpValue"}, "Caller": {"CallerNotInSyscall"}}
@@ -98,6 +103,8 @@ def check_op(meta, interp, name, k, V, cov, rng):
             continue
         S = spec_view(res, meta)
         sp = specmod.SPEC[name](S)
+        if name in EXTRA_IMPLIED:
+            sp = dict(sp, implied=list(sp.get("implied", [])) + EXTRA_IMPLIED[name](S))
         pre, posts, _ = specmod.posts_from_spec(S, sp)
         ctx = res.ctx
         s = z3.Solver()
@@ -324,6 +331,11 @@ def main():
         if ok_first:
             covered.append(nm)
     cov["candidates"] = []
+    # ---- instruction level (Engine D): real assembler expansion + real op bodies vs the reference ----
+    cov_i = dict(paths=0, queries=0, solver_time_s=0.0, native_validated=0)
+    if not only:
+        import c05_instr
+        c05_instr.run(meta, V, cov_i)
     c = V.counts()
     not_cov = [o for o in V.obligations if o["status"] == "not-covered"]
     for o in V.obligations:
@@ -333,7 +345,8 @@ def main():
     coverage = dict(
         states=cov["paths"], transitions=c.get("discharged", 0), traces_validated_against_impl=cov["native_validated"],
         samples=samples, obligations=len(V.obligations), discharged=c.get("discharged", 0),
-        operations_covered=covered, operations_not_covered=[(o["name"], o["detail"][:120]) for o in not_cov],
+        operations_covered=covered, instructions_checked=cov_i.get("instructions", 0), instruction_paths=cov_i.get("paths", 0),
+        instruction_queries=cov_i.get("queries", 0), slow_instructions=cov_i.get("slow", []), operations_not_covered=[(o["name"], o["detail"][:120]) for o in not_cov],
         panic_paths=cov["panic_paths"][:10],
         functions_encoded=["processor::operations::<impl Process<H>>::execute_op and every op_* body, advance_clock, System::advance_clock, assert_binary, split_element, split_u32_into_u16, add_range_checks, get_valid_address (MIR of the current tree)"],
         modelled_natively=["Stack::{get,set,copy_state,shift_left,shift_right} (abstract stack + bookkeeping columns)", "Felt arithmetic (field theory)",
